@@ -222,8 +222,8 @@ add("C13", "default origin policy (reduced)",
 add("C15", "compression agreement",
     [H("vfH_offer_variants", ["offer-variants-end"], 300), H("vfH_upgrade_logic", ["upgrade-success"], 600, {"focus": 9}), H("vfH_dial_logic", ["dial-success", "dial-refused"], 600, {"dim": 11}),
      H("vfH_negotiate", ["negotiate-end"], 400), H("vfH_compress_toggle", ["toggle-end"]), H("vfH_abandon_compressed", ["abandon-compressed-end"]), H("vfH_read_step_data", ["step-accepted"], 500), TWIN("vfH_negotiate")],
-    [H("vfH_offer_variants", ["offer-variants-end"], 2400, {"tier": 1}), H("vfH_rt_e2e", ["rt-e2e-end"], 900, {"M": 2})],
-    ["client and server negotiation code joined through their header maps for all four (Dialer.EnableCompression, Upgrader.EnableCompression) combinations and caller-supplied offers; server alone against offers from grammar templates (parameters, quoted strings, other extensions first, two lines, near-miss names, symbolic whitespace) and short arbitrary byte strings; client alone against replies with each / both / neither no_context_takeover parameter and extra extensions",
+    [H("vfH_offer_variants", ["offer-variants-end"], 900, {"tier": 1, "mode": 0, "NB": 7}), H("vfH_offer_variants", ["offer-variants-end"], 1800, {"tier": 1, "mode": 1, "NL": 1, "QL": 2}), H("vfH_rt_e2e", ["rt-e2e-end"], 900, {"M": 2})],
+    ["client and server negotiation code joined through their header maps for all four (Dialer.EnableCompression, Upgrader.EnableCompression) combinations and caller-supplied offers; server alone against offers from grammar templates (parameters, quoted strings, other extensions first, two lines, near-miss names, symbolic whitespace) and arbitrary byte strings of <= 3 (thorough <= 6) bytes, quoted parameter values of 1 (thorough 2) arbitrary bytes; client alone against replies with each / both / neither no_context_takeover parameter and extra extensions",
      "frame level: RSV1 on a first data frame accepted iff a decompressor is configured (inductive step); EnableWriteCompression / SetCompressionLevel (symbolic level, all 2^64 ints) toggled between 3 messages with the stored-block model"],
     ["real deflate output at any level", "offers longer than the templates"],
     ASSUME_COMMON, HS_STUBS + [STUB_FLATE],
